@@ -733,12 +733,12 @@ void File::uncompressedFile2ReadWriteQueue() {
         m_uncompressedFile.seekg(tmp);
     }
 
-    /* push data into readWriteQueue */
-    m_readWriteQueue.write(obj);
-
     /* statistics */
     if (obj->objectType != ObjectType::Unknown115)
         currentObjectCount++;
+
+    /* push data into readWriteQueue */
+    m_readWriteQueue.write(obj);
 
     /* drop old data */
     m_uncompressedFile.dropOldData();
